@@ -143,59 +143,48 @@ func solveOne(e *Enc, o *Obligation, idx int, opts solveOpts) {
 		}
 		return
 	}
-	// stage I (goal-directed instantiation) and stage B (full query) run side by side;
-	// the first unsat wins
+	// stage I: goal-directed instantiation (short time-out), then stage B: the full query
 	modelA := ""
 	if a.result == "sat" {
 		modelA = a.out
 	}
-	type stageAns struct {
-		ans   solverAnswer
-		stage string
-		file  string
-		ok    bool
-	}
-	ch := make(chan stageAns, 2)
-	pending := 0
 	if !o.IsCover {
 		if q, ok := e.ctx.instantiatedQuery(goalNeg, o.Extra); ok {
 			fileI := base + ".inst.smt2"
 			os.WriteFile(fileI, []byte(hdr+q), 0o644)
-			pending++
-			go func() {
-				ai := runSolver(solvers[0], fileI, opts.TimeoutS)
-				if ai.result != "unsat" {
-					if bi := runSolver(solvers[1], fileI, opts.TimeoutS); bi.result == "unsat" {
-						ai = bi
-					}
+			ti := opts.TimeoutS
+			if ti > 8 {
+				ti = 8
+			}
+			ai := runSolver(solvers[0], fileI, ti)
+			o.Seconds += ai.seconds
+			if ai.result == "unsat" {
+				o.File = fileI
+				record(ai, "/instantiated")
+				if opts.All {
+					crossCheck(o, fileI, opts)
 				}
-				ch <- stageAns{ai, "/instantiated", fileI, ai.result == "unsat"}
-			}()
+				return
+			}
 		}
 	}
 	fileB := write(".full", false)
-	pending++
-	go func() {
-		b, ok := race(solvers, fileB, opts.TimeoutS)
-		ch <- stageAns{b, "", fileB, ok}
-	}()
-	var b solverAnswer
-	ok := false
-	for i := 0; i < pending; i++ {
-		sa := <-ch
-		o.Seconds += sa.ans.seconds
-		if sa.ok && sa.ans.result == "unsat" {
-			o.File = sa.file
-			record(sa.ans, sa.stage)
-			if opts.All && !o.IsCover {
-				crossCheck(o, sa.file, opts)
-			}
-			return
+	o.File = fileB
+	b := runSolver(solvers[0], fileB, opts.TimeoutS)
+	o.Seconds += b.seconds
+	ok := b.result == "sat" || b.result == "unsat"
+	if !ok {
+		var b2 solverAnswer
+		b2, ok = race(solvers[1:], fileB, opts.TimeoutS)
+		o.Seconds += b2.seconds
+		if ok {
+			b = b2
 		}
-		if sa.stage == "" {
-			b, ok = sa.ans, sa.ok
-			o.File = sa.file
-		}
+	}
+	if ok && b.result == "unsat" && opts.All && !o.IsCover {
+		record(b, "")
+		crossCheck(o, fileB, opts)
+		return
 	}
 	if !ok && opts.Retry && modelA == "" {
 		for _, sd := range solvers[:2] {
@@ -276,7 +265,7 @@ func solveAll(units []*Unit, opts solveOpts) {
 	os.MkdirAll(opts.WorkDir, 0o755)
 	n := opts.Jobs
 	if n <= 0 {
-		n = 10 // each obligation may run up to four solver processes at a time
+		n = 14
 	}
 	ch := make(chan job)
 	var wg sync.WaitGroup
